@@ -1,0 +1,95 @@
+//! Verification hooks for [`CharwiseDoubleArrayAhoCorasick`] (compiled only with
+//! `--cfg daachorse_verif`).
+
+use alloc::vec::Vec;
+
+use crate::charwise::CharwiseDoubleArrayAhoCorasick;
+use crate::serializer::SerializableVec;
+use crate::utils::FromU32;
+use crate::verif::{RawAutomaton, RawOutput, RawState};
+
+impl<V> CharwiseDoubleArrayAhoCorasick<V>
+where
+    V: Copy,
+{
+    /// Returns a raw copy of the tables.
+    #[must_use]
+    pub fn verif_raw(&self) -> RawAutomaton<V> {
+        let states: Vec<_> = self
+            .states
+            .iter()
+            .map(|s| RawState {
+                base: s.base().map_or(0, core::num::NonZeroU32::get),
+                check: s.check(),
+                fail: s.fail(),
+                output_pos: s.output_pos().map_or(0, core::num::NonZeroU32::get),
+            })
+            .collect();
+        let outputs: Vec<_> = self
+            .outputs
+            .iter()
+            .map(|o| RawOutput {
+                value: o.value(),
+                length: o.length(),
+                parent: o.parent().map_or(0, core::num::NonZeroU32::get),
+            })
+            .collect();
+        // The mapper keeps its table private; its serialized form is the length followed by the
+        // entries and the alphabet size, all little-endian u32.
+        let mut bytes = Vec::new();
+        self.mapper.serialize_to_vec(&mut bytes);
+        let words: Vec<u32> = bytes
+            .chunks_exact(4)
+            .map(|b| u32::from_le_bytes([b[0], b[1], b[2], b[3]]))
+            .collect();
+        let table_len = usize::from_u32(words[0]);
+        RawAutomaton {
+            states,
+            outputs,
+            mapper_table: words[1..=table_len].to_vec(),
+            alphabet_size: self.mapper.alphabet_size(),
+            match_kind: u8::from(self.match_kind),
+            num_states: self.num_states,
+        }
+    }
+
+    /// Returns the code the mapper assigns to `c`.
+    #[must_use]
+    pub fn verif_mapped(&self, c: char) -> Option<u32> {
+        self.mapper.get(c)
+    }
+
+    /// Calls the crate's own child function with a mapped code.
+    ///
+    /// # Panics
+    ///
+    /// Panics if `state_id` is out of range or `mapped_c` is not a code of the mapper.
+    #[must_use]
+    pub fn verif_child(&self, state_id: u32, mapped_c: u32) -> Option<u32> {
+        assert!(usize::from_u32(state_id) < self.states.len());
+        assert!(mapped_c < self.mapper.alphabet_size());
+        unsafe { self.child_index_unchecked(state_id, mapped_c) }
+    }
+
+    /// Calls the crate's own standard transition function.
+    ///
+    /// # Panics
+    ///
+    /// Panics if `state_id` is out of range.
+    #[must_use]
+    pub fn verif_next_state(&self, state_id: u32, c: char) -> u32 {
+        assert!(usize::from_u32(state_id) < self.states.len());
+        unsafe { self.next_state_id_unchecked(state_id, c) }
+    }
+
+    /// Calls the crate's own leftmost transition function.
+    ///
+    /// # Panics
+    ///
+    /// Panics if `state_id` is out of range.
+    #[must_use]
+    pub fn verif_next_state_leftmost(&self, state_id: u32, c: char) -> u32 {
+        assert!(usize::from_u32(state_id) < self.states.len());
+        unsafe { self.next_state_id_leftmost_unchecked(state_id, c) }
+    }
+}
